@@ -1,5 +1,6 @@
 import StraxModel.Lemmas.BackpressureLazy
 import StraxModel.Lemmas.BackpressureDag
+import StraxModel.Lemmas.BackpressurePool
 /-
   C13 at the level of a pipeline (chain model of Model/Backpressure.lean; the mailbox-level theorems `capacity_inv`,
   `lazy_gate`, `lazy_gate_old_counterexample` are in Props/C13.lean).
@@ -37,11 +38,31 @@ theorem net_no_error {w : Wiring} {n : Nat} {s : Net} (hw : WellFormed w = true)
   have hi := Inv.reachable (wf_pos hw) h
   exact ⟨hi.notDead, fun j mb hm => (hi.capAt hm).elim fun _ hh => hh.2.alive⟩
 
-/-- REST BOUND as an invariant: in every reachable state the source is at most `B w = 2·Σ cap` messages ahead of
-the consumer; `B` is a function of the wiring only (not of the run length `n`, not of the schedule) -/
-theorem chain_rest_bound {w : Wiring} {n : Nat} {s : Net} (hw : WellFormed w = true) (h : Reachable w n s) :
-    s.emitted ≤ s.pulled + B w :=
+/-- REST BOUND as an invariant, no worker pool: in every reachable state the source is at most `B w = 2·Σ cap`
+messages ahead of the consumer; `B` is a function of the wiring only (not of the run length `n`, not of the schedule) -/
+theorem chain_rest_bound {w : Wiring} {n : Nat} {s : Net} (hw : WellFormed w = true) (hp : w.pool = false)
+    (h : Reachable w n s) : s.emitted ≤ s.pulled + B w := by
+  have h1 := (Inv.reachable (wf_pos hw) h).bound (wf_caps hw)
+  have h2 := mainPend_zero (wf_pos hw) hp h
+  omega
+
+/-- REST BOUND with a worker pool (stages send futures, readers wait for their results; any wiring): `B w` plus exactly
+the future the consumer's reader has taken out of the last mailbox and not handed over yet (`Net.mainPend` ∈ {0, 1}) —
+this is the `B + 1` the harness uses for pool runs -/
+theorem chain_rest_bound_pool_exact {w : Wiring} {n : Nat} {s : Net} (hw : WellFormed w = true) (h : Reachable w n s) :
+    s.emitted ≤ s.pulled + B w + s.mainPend :=
   (Inv.reachable (wf_pos hw) h).bound (wf_caps hw)
+
+theorem chain_rest_bound_pool {w : Wiring} {n : Nat} {s : Net} (hw : WellFormed w = true) (h : Reachable w n s) :
+    s.emitted ≤ s.pulled + Bpool w := by
+  have h1 := chain_rest_bound_pool_exact hw h
+  have h2 := mainPend_le_one s
+  simp only [Bpool]; omega
+
+/-- no futures without a pool: the consumer's reader never holds a message it has not handed over -/
+theorem chain_no_future_without_pool {w : Wiring} {n : Nat} {s : Net} (hw : WellFormed w = true) (hp : w.pool = false)
+    (h : Reachable w n s) : s.mainPend = 0 :=
+  mainPend_zero (wf_pos hw) hp h
 
 /-- nothing reaches the consumer that the source has not produced -/
 theorem chain_pulled_le_emitted {w : Wiring} {n : Nat} {s : Net} (hw : WellFormed w = true) (h : Reachable w n s) :
@@ -51,19 +72,28 @@ theorem chain_pulled_le_emitted {w : Wiring} {n : Nat} {s : Net} (hw : WellForme
 /-- REST BOUND as stated in the property: from ANY reachable state, whatever the other threads do while the
 consumer does not pull (any schedule `σ` without the consumer, of any length, in particular one that ends in
 quiescence), the source advances at most `B w` more times -/
-theorem chain_rest_bound_paused {w : Wiring} {n : Nat} {s : Net} (hw : WellFormed w = true) (h : Reachable w n s)
-    (σ : List Tid) (hσ : ∀ t ∈ σ, t ≠ s.main) : (Backpressure.run s σ).emitted ≤ s.emitted + B w := by
-  have h1 := chain_rest_bound hw (reachable_run h σ)
+theorem chain_rest_bound_paused {w : Wiring} {n : Nat} {s : Net} (hw : WellFormed w = true) (hp : w.pool = false)
+    (h : Reachable w n s) (σ : List Tid) (hσ : ∀ t ∈ σ, t ≠ s.main) : (Backpressure.run s σ).emitted ≤ s.emitted + B w := by
+  have h1 := chain_rest_bound hw hp (reachable_run h σ)
   have h2 := chain_pulled_le_emitted hw h
   rw [run_pulled σ hσ] at h1
   omega
 
 /-- the same at quiescence (`Net.quiescent`: no thread but the consumer is enabled — every other thread has ended or
 is blocked on a full mailbox, at the fetch gate or on a message that is not there) -/
-theorem chain_rest_bound_quiescent {w : Wiring} {n : Nat} {s : Net} (hw : WellFormed w = true) (h : Reachable w n s)
-    (σ : List Tid) (hσ : ∀ t ∈ σ, t ≠ s.main) (_hq : (Backpressure.run s σ).quiescent = true) :
+theorem chain_rest_bound_quiescent {w : Wiring} {n : Nat} {s : Net} (hw : WellFormed w = true) (hp : w.pool = false)
+    (h : Reachable w n s) (σ : List Tid) (hσ : ∀ t ∈ σ, t ≠ s.main) (_hq : (Backpressure.run s σ).quiescent = true) :
     (Backpressure.run s σ).emitted - s.emitted ≤ B w := by
-  have := chain_rest_bound_paused hw h σ hσ
+  have := chain_rest_bound_paused hw hp h σ hσ
+  omega
+
+/-- … and with a worker pool: at most `B w + 1` further advances of the source -/
+theorem chain_rest_bound_pool_paused {w : Wiring} {n : Nat} {s : Net} (hw : WellFormed w = true)
+    (h : Reachable w n s) (σ : List Tid) (hσ : ∀ t ∈ σ, t ≠ s.main) :
+    (Backpressure.run s σ).emitted ≤ s.emitted + Bpool w := by
+  have h1 := chain_rest_bound_pool hw (reachable_run h σ)
+  have h2 := chain_pulled_le_emitted hw h
+  rw [run_pulled σ hσ] at h1
   omega
 
 /-- THE GATE at every mailbox of a lazy pipeline (fixed gate rule): whenever the sender of mailbox `j` is inside
@@ -121,20 +151,32 @@ theorem dag_local_backpressure_partial {c : Nat} {lazy : Bool} {rule : GateRule}
 /-! non-vacuity: concrete wirings satisfy the hypotheses, states with work in progress are reachable, and the bound
 is attained (so `2·cap` per mailbox cannot be improved) -/
 
-example : WellFormed ⟨false, [2, 1, 3], [0, 1, 0]⟩ = true := by decide
-example : WellFormed ⟨true, [4], [2]⟩ = true := by decide
-example : B ⟨false, [2, 1, 3], [0, 1, 0]⟩ = 12 := by decide
+example : WellFormed { lazy := false, caps := [2, 1, 3], savers := [0, 1, 0] } = true := by decide
+example : WellFormed { lazy := true, caps := [4], savers := [2] } = true := by decide
+example : WellFormed { lazy := false, caps := [1, 2], savers := [0, 0], pool := true } = true := by decide
+example : B { lazy := false, caps := [2, 1, 3], savers := [0, 1, 0] } = 12 := by decide
 
 /-- the bound `2·cap` per mailbox is attained: one mailbox of capacity 1, eager — the source fills the mailbox, the
 consumer takes the message, the source fills it again and holds a third message: emitted = pulled + 2 = pulled + B -/
 example :
-    (Backpressure.run (wire ⟨false, [1], [0]⟩ 5) [.node 0, .node 0, .node 1, .node 0, .node 0, .node 0]).emitted =
-    (Backpressure.run (wire ⟨false, [1], [0]⟩ 5) [.node 0, .node 0, .node 1, .node 0, .node 0, .node 0]).pulled
-      + B ⟨false, [1], [0]⟩ := by decide
+    (Backpressure.run (wire { lazy := false, caps := [1], savers := [0] } 5) [.node 0, .node 0, .node 1, .node 0, .node 0, .node 0]).emitted =
+    (Backpressure.run (wire { lazy := false, caps := [1], savers := [0] } 5) [.node 0, .node 0, .node 1, .node 0, .node 0, .node 0]).pulled
+      + B { lazy := false, caps := [1], savers := [0] } := by decide
+
+/-- with a worker pool `B + 1` is attained: source → p1 → consumer, capacities 1 and 1 (B = 4).  The consumer's reader has
+taken the first future and waits for its result, both mailboxes are full again, p1 and the source each hold one more:
+five chunks computed, none handed to the consumer -/
+def poolDemo : Net :=
+  Backpressure.run (wire { lazy := false, caps := [1, 1], savers := [0, 0], pool := true } 9)
+    [.node 0, .node 0, .node 1, .node 1, .node 2, .node 0, .node 0, .node 1, .node 1, .node 0, .node 0, .node 1, .node 1,
+     .node 0, .node 0, .node 0, .node 0]
+
+example : poolDemo.emitted = 5 ∧ poolDemo.pulled = 0 ∧ poolDemo.mainPend = 1 ∧
+    B { lazy := false, caps := [1, 1], savers := [0, 0], pool := true } = 4 := by decide
 
 /-- a lazy chain of three mailboxes with a saver: the consumer's demand travels up, one chunk comes down -/
 def lazyDemo : Net :=
-  Backpressure.run (wire ⟨true, [2, 2, 2], [0, 1, 0]⟩ 5)
+  Backpressure.run (wire { lazy := true, caps := [2, 2, 2], savers := [0, 1, 0] } 5)
     [.node 3, .node 2, .node 2, .node 1, .node 1, .node 0, .node 0, .node 0, .node 1, .node 1, .node 2, .node 2, .node 3]
 
 example : lazyDemo.emitted = 1 ∧ lazyDemo.pulled = 1 := by decide
